@@ -106,7 +106,8 @@ def passEvent (j : JobSt) (st : Stream) (off : Nat) : Bool :=
   | none => true
   | some o => decide (off > o)
 
-/-- one `controller.In` call of the worker and `job.lastEventSeq = …` -/
+/-- one `controller.In` call of the worker; `job.lastEventSeq` takes the returned SeqID unless the
+    line was refused (In returns 0: not admitted, or skipped by PassEvent) -/
 def inOne (cfg : Cfg) (i : Nat) (s : State) (call : Nat × Bytes) : State :=
   match s.jobs i with
   | none => s
@@ -122,13 +123,12 @@ def inOne (cfg : Cfg) (i : Nat) (s : State) (call : Nat × Bytes) : State :=
       else
         { s with
           skipped := s.skipped ++ [⟨i, cfg.streamOf call.2, call.1, 0, call.2⟩],
-          inLog := s.inLog ++ [(i, call.1, false)],
-          jobs := upd s.jobs i (some { j with lastSeq := 0 }) }
-    else { s with jobs := upd s.jobs i (some { j with lastSeq := 0 }) }
+          inLog := s.inLog ++ [(i, call.1, false)] }
+    else s
 
-/-- `truncateJob` (the tail is kept: the code does not touch it) -/
+/-- `truncateJob`: ignore what was read so far, seek to 0, drop the pending partial line, zero the offsets -/
 def truncateJob (j : JobSt) : JobSt :=
-  { j with ignoreLE := j.lastSeq, w := { j.w with curOffset := 0 },
+  { j with ignoreLE := j.lastSeq, w := { j.w with curOffset := 0, tail := [] },
            offsets := j.offsets.map (fun p => (p.1, 0)) }
 
 /-- one worker turn on job `i`: the reads, the `In` calls, tail / curOffset, `processEOF` -/
